@@ -155,6 +155,19 @@ def rule_chain(check):
             uses = [x for x in hir.calls_in(cs.body, name=adder)]
             src_ok = all(hir.local_of(hir.call_args(x)[1]) and _init_is_getter(cs, hir.local_of(hir.call_args(x)[1])[0], getter, orig) for x in uses) and bool(uses)
             check.expect(src_ok, R, "%s/%s" % (R, getter), hir.loc(n), "%s index built from original.%s()" % (adder, getter), "%s index is not built from the original token's %s()" % (adder, getter))
+        # closed set of effects on the builder: sources already carry the original map's sourceRoot
+        # (sourcemap::Token::get_source), so e.g. set_source_root would apply it twice
+        bl = hir.local_of(hir.call_args(n)[0])
+        used = {}
+        for x in cs.nodes():
+            if x.get("k") == "MethodCall" and hir.local_of(x["recv"]) == bl:
+                used.setdefault(x["method"], x)
+        allowed = {"add_raw", "add_source", "add_name", "into_sourcemap"}
+        for m, x in sorted(used.items()):
+            check.expect(m in allowed, R, "%s/builder-effect/%s" % (R, m), hir.loc(x), "builder.%s (reviewed)" % m, "unreviewed effect builder.%s() on the chained map: the composition is defined by add_source/add_name/add_raw only (sources returned by the original token already include its sourceRoot)" % m)
+        ctor = cs.bindings()[bl[0]]["origin"][1] if bl else None
+        ok_new = ctor is not None and hir.is_call(hir.peel(ctor)) and hir.callee_name(hir.peel(ctor)) == "new" and (hir.peel(hir.call_args(hir.peel(ctor))[0]).get("res", {}).get("ctor_path") or "").split("::")[-1] == "None"
+        check.expect(ok_new, R, R + "/builder-new", hir.loc(n), "SourceMapBuilder::new(None)", "the chained map builder is not created with SourceMapBuilder::new(None)")
         tk = [x for x in hir.calls_in(cs.body, name="tokens")]
         check.expect(len(tk) == 1, R, R + "/all-tokens", hir.loc(n), "iterates all tokens of the rewrite map", "does not iterate tokens() of the rewrite map")
 
